@@ -165,7 +165,7 @@ fn c06_case(t: &Target, w: &dyn AnyWriter, idx: u64, all: Bufs, site: &str, l: &
 
 pub fn c17(ctx: &mut Ctx) {
     common_setup(ctx, "C17: writers define every byte they claim and touch nothing else");
-    ctx.bound("prefill patterns", "(7i+3)&0xFF and its complement, position dependent; the image itself with the bytes at all 16 sets of residues mod 4 inverted (3 sets above 128 bytes), with all but the first and last byte inverted, with one byte inverted");
+    ctx.bound("prefill patterns", "(7i+3)&0xFF and its complement, position dependent; the image itself with the bytes at all 16 sets of residues mod 4 inverted (every fourth configuration of at most 128 bytes; 3 sets otherwise), with all but the first and last byte inverted, with one byte inverted");
     let spaces = all_target_spaces(ctx.tier, ctx.seed);
     run_targets(ctx, spaces, |t, idx, all, l| {
         let site = t.builder();
@@ -288,7 +288,7 @@ fn c17_case(t: &Target, w: &dyn AnyWriter, idx: u64, all: Bufs, site: &str, l: &
         }
     }
     // buffers that already hold part of the right answer: the image itself with the bytes at chosen positions
-    // inverted (positions by residue modulo 4 - all sixteen residue sets for small packets, three for larger ones -,
+    // inverted (positions by residue modulo 4 - all sixteen residue sets for every fourth small packet, three otherwise -,
     // everything but the first and last byte, and a single byte that moves with the case index). A writer that
     // skips work because the buffer "already looks right" at the places it looks at leaves the inverted bytes behind.
     if let Ok(n) = size {
@@ -297,7 +297,7 @@ fn c17_case(t: &Target, w: &dyn AnyWriter, idx: u64, all: Bufs, site: &str, l: &
             if let Ok(Ok(m)) = guard::catch(|| w.write(&mut img)) {
                 if m == n {
                     let img: Vec<u8> = img.into_vec();
-                    let sets: &[u8] = if n <= 128 { &[0, 1, 2, 3, 4, 5, 6, 7, 8, 9, 10, 11, 12, 13, 14, 15] } else { &[0b1001, 0b0001, 0b1000] };
+                    let sets: &[u8] = if n <= 128 && idx % 4 == 0 { &[0, 1, 2, 3, 4, 5, 6, 7, 8, 9, 10, 11, 12, 13, 14, 15] } else { &[0b1001, 0b0001, 0b1000] };
                     let single = (idx as usize).wrapping_mul(7) % n;
                     let mut prefills: Vec<(String, Box<dyn Fn(usize) -> bool>)> = Vec::new();
                     for &k in sets {
